@@ -169,7 +169,7 @@ func setup(r *explore.Run, sc scenario) *world {
 	xr := xrh.XR("xr1", "comp")
 	xr.SetWriteConnectionSecretToReference(&xpv1.SecretReference{Namespace: "ns", Name: "xr1-conn"})
 	s.Seed(xr)
-	w.inj = &xrh.FaultInjector{Run: r, Reads: sc.reads, NotFoundReads: true}
+	w.inj = (&xrh.FaultInjector{Run: r, Reads: sc.reads, NotFoundReads: true}).WithErrClasses(s)
 	s.Inj = w.inj
 	return w
 }
